@@ -31,10 +31,10 @@ class Check(ReportCheck):
             return None
         rc, facts = xml_facts(text)
         sec = accessors.sections(rep)
-        if len(sec['stories']) != len(facts):
-            return None
         all_script, all_body = [], []
-        for s, f in zip(sec['stories'], facts):
+        same_n = len(sec['stories']) == len(facts)      # (how many stories are listed is C15's business; the running-order
+        for k, f in enumerate(facts):                   #  script / body below are decided from the document either way)
+            s = sec['stories'][k] if same_n else None
             script, body = [], []
             for c in f['elem']:
                 if c.tag == 'p':
@@ -49,9 +49,9 @@ class Check(ReportCheck):
                     body.append('I ' + X.s_tok(None if iid is None else iid.text))
             want_s = ' '.join([str(len(script))] + script)
             want_b = ' '.join([str(len(body))] + body)
-            if self.grab(s, 'script') != want_s:
+            if s is not None and self.grab(s, 'script') != want_s:
                 return 'story %r: script is not the non-empty, non-technical paragraphs, stripped, in order' % f['id']
-            if self.grab(s, 'body') != want_b:
+            if s is not None and self.grab(s, 'body') != want_b:
                 return 'story %r: body is not the paragraphs and items in document order' % f['id']
             all_script += script
             all_body += body
